@@ -145,7 +145,7 @@ Lemma eff_rule_uniform S d t : dall d = true -> In t (vis_types S (dws d)) -> fm
   (forall t', In t' (vis_types S (dws d)) -> fmatch (rflt (drl d)) t' = true -> taclops t' = taclops t) ->
   rops (eff_rule S d) = taclops t.
 Proof.
-  intros Ha Hin Hm Hu. unfold eff_rule. rewrite Ha. cbn [rops].
+  intros Ha Hin Hm Hu. unfold eff_rule, eff_rule_gen. rewrite Ha. cbn [rops].
   destruct (find (fmatch (rflt (drl d))) (vis_types S (dws d))) as [t0|] eqn:F.
   - apply find_some in F. destruct F as [F1 F2]. apply Hu; assumption.
   - exfalso. pose proof (find_none _ _ F t Hin) as X. cbn in X. congruence.
@@ -184,7 +184,7 @@ Lemma accepted_all_ops S d t : accepted_gen true S d = true -> dall d = true ->
   In t (vis_types S (dws d)) -> fmatch (rflt (drl d)) t = true -> rops (eff_rule S d) = taclops t.
 Proof.
   intros A Ha Hin Hm. unfold accepted_gen in A. rewrite Ha in A. cbn in A.
-  unfold eff_rule. rewrite Ha. cbn [rops]. rewrite find_filter. unfold uniform in A.
+  unfold eff_rule, eff_rule_gen. rewrite Ha. cbn [rops]. rewrite find_filter. unfold uniform in A.
   assert (Hf : In t (filter (fmatch (rflt (drl d))) (vis_types S (dws d)))) by (apply filter_In; split; assumption).
   destruct (filter (fmatch (rflt (drl d))) (vis_types S (dws d))) as [|t0 ts]; [destruct Hf|].
   destruct Hf as [->|Hf]; [reflexivity|]. rewrite forallb_forall in A. symmetry. apply lN_eqb_eq. apply A. exact Hf.
@@ -193,3 +193,10 @@ Qed.
 Lemma accepted_all_ops_cur (U : acl_all_requires_uniform_ops = true) : forall S d t, accepted S d = true -> dall d = true ->
   In t (vis_types S (dws d)) -> fmatch (rflt (drl d)) t = true -> rops (eff_rule S d) = taclops t.
 Proof. unfold accepted. rewrite U. exact accepted_all_ops. Qed.
+
+(* ---------- a rule keeps the field list it was declared with ---------- *)
+Lemma eff_fields_declared clones d : clones = true \/ dscr d = [] -> eff_fields clones d = rfields (drl d).
+Proof. intros [->|E]; unfold eff_fields; [reflexivity|]. rewrite E. cbn. rewrite orb_true_r. reflexivity. Qed.
+
+Lemma eff_rule_fields_cur (C : acl_rule_clones_fields = true) : forall S d, rfields (eff_rule S d) = rfields (drl d).
+Proof. intros S d. unfold eff_rule, eff_rule_gen. cbn [rfields]. apply eff_fields_declared. left. exact C. Qed.
